@@ -13,6 +13,7 @@ import StsModel.Drv.Announce
 import StsModel.Drv.Release
 import StsModel.Drv.Live
 import StsModel.Drv.Stop
+import StsModel.Drv.Prune
 namespace Sts.Drv
 
 def main (args : List String) : IO UInt32 :=
@@ -33,6 +34,7 @@ def main (args : List String) : IO UInt32 :=
   | ["announce"] => run announceStep ()
   | ["live"] => run liveStep {}
   | ["stop"] => run stopStep {}
+  | ["prune"] => run pruneStep {}
   | ["release"] => run Rel.relStep {}
   | ["recovery"] => run Rel.relStep {}
   | ["release-orig"] => run Rel.relStep { fx := Sts.Release.Fixes.original }
